@@ -190,7 +190,31 @@ func (c *Ctx) ruleComparatorTable(rule string, r *pqRoles) {
 		for _, ii := range pairs {
 			vals := map[string]int64{"Pi": pp[0], "Pj": pp[1], "Ii": ii[0], "Ij": ii[1]}
 			te := &tableEval{c: c}
+			te.field = func(base tval, name string) (tval, bool) {
+				if !strings.HasPrefix(base.Obj, "item:") {
+					return tval{}, false
+				}
+				which := base.Obj[len("item:"):]
+				switch name {
+				case r.fPrio:
+					return tval{I: vals["P"+which]}, true
+				case r.fIndex:
+					return tval{I: vals["I"+which]}, true
+				}
+				return tval{}, false
+			}
 			te.leaf = func(g *Func, e ast.Expr) (tval, bool) {
+				// <heap>.items[<i|j>]  (the item itself, e.g. bound to a local)
+				if ix, ok := e.(*ast.IndexExpr); ok && selField(g.Info(), ix.X) == r.fItems {
+					if id, ok := ast.Unparen(ix.Index).(*ast.Ident); ok {
+						switch g.Info().ObjectOf(id) {
+						case pi:
+							return tval{Obj: "item:i"}, true
+						case pj:
+							return tval{Obj: "item:j"}, true
+						}
+					}
+				}
 				// <heap>.items[<i|j>].<Priority|Index>
 				sel, ok := e.(*ast.SelectorExpr)
 				if !ok {
